@@ -73,6 +73,9 @@ def op_strategy(kind, none_p=True, bulk_empty=True, heavy=True, only=None):
         (2, "add_edges_from", bulk(4)),
         (2, "add_edges_from", bulk(5)),
         (1, "add_weighted_edges_from", st.tuples(st.just("add_weighted_edges_from"), st.lists(st.tuples(members_of(kind, 1, 3, none_p), st.sampled_from([0.5, 2, 3.0])).map(list), max_size=2), st.sampled_from(["weight", "w"]), a.map(lambda d: {k: v for k, v in d.items() if k != "weight"})).map(list)),
+        # a custom weight name together with a keyword attribute of the same name: the per-edge weight takes precedence
+        (1, "add_weighted_edges_from", st.tuples(st.just("add_weighted_edges_from"), st.lists(st.tuples(members_of(kind, 1, 3, none_p), st.sampled_from([0.5, 2, 3.0])).map(list), min_size=1, max_size=2), st.just("w"),
+                                                 a.map(lambda d: dict({k: v for k, v in d.items() if k != "weight"}, w=7))).map(list)),
         (2, "set_edge_attributes", setattr_modes(ex).map(lambda t: ["set_edge_attributes"] + list(t))),
         (3, "double_edge_swap", st.tuples(st.just("double_edge_swap"), nm, nm, ex, ex).map(list)),
         (1, "double_edge_swap", st.tuples(st.just("double_edge_swap"), nm, st.just(["same"]), ex, ex).map(list)),  # one node named twice
